@@ -1,7 +1,8 @@
 import EzdxfVerif.Gen.RecoverTables
 import EzdxfVerif.Model.Recover
+import EzdxfVerif.Model.RecoverLoad
 import Drivers.Proto
-open EzdxfVerif EzdxfVerif.Recover Proto
+open EzdxfVerif EzdxfVerif.Recover EzdxfVerif.RecoverLoad Proto
 
 def showErr : PyErr → String
   | .dxfStructureError => "DXFStructureError" | .indexError => "IndexError"
@@ -59,6 +60,29 @@ def hashStr (s : String) : Nat := s.toList.foldl (fun h c => (h * 131 + c.toNat)
 def showOptInt : Option Int → String
   | some i => "ok " ++ (if i < 0 then "-" else "") ++ toString (i.natAbs % 2305843009213693951)
   | none => "none"
+
+def showVal : CVal → String
+  | .str s => "s" ++ dots s
+  | .num => "n" | .bin => "b" | .vtx => "v"
+
+def showBItem : BItem → String
+  | .tag t => showCTag t
+  | .app i => "a" ++ toString i
+
+def showGroups (gs : List (List CTag)) : String := ",".intercalate (gs.map showGroup)
+
+def showKeyed (d : List (Str × List CTag)) : String :=
+  ";".intercalate (d.map fun e => dots e.1 ++ "=" ++ showGroup e.2)
+
+def showEnvelope (v : Envelope) : String :=
+  "base=" ++ " ".intercalate (v.xt.base.map showBItem) ++ "|subs=" ++ showGroups v.xt.subclasses
+    ++ "|apps=" ++ showGroups v.xt.appdata ++ "|emb=" ++ showGroups v.xt.embedded ++ "|xd=" ++ showGroups v.xt.xdata
+    ++ "|r=" ++ (match v.reactors with | some hs => ",".intercalate (hs.map dots) | none => "-")
+    ++ "|x=" ++ (match v.xdict with | some h => showVal h | none => "-")
+    ++ "|ad=" ++ showKeyed v.appdata ++ "|xdata=" ++ showKeyed v.xdata
+
+def parseCTags (t : String) : Option (List CTag) :=
+  if t.isEmpty then some [] else (t.splitOn " ").mapM parseCTag
 
 def step (line : String) : String :=
   match line.splitOn "|" with
@@ -125,6 +149,20 @@ def step (line : String) : String :=
   | ["validate", t] =>
     (match (if t.isEmpty then some [] else (t.splitOn " ").mapM parseCTag) with
      | some ts => toString (validEntity ts)
+     | none => "bad-op")
+  | ["envelope", t] =>
+    (match parseCTags t with
+     | some ts =>
+       (match loadEnvelope ts with
+        | .ok v => "ok " ++ showEnvelope v ++ "|iter=" ++ toString (v.xt.iter == ts)
+        | .error x => "err " ++ showErr x)
+     | none => "bad-op")
+  | ["loadseq", t] =>
+    -- section names (as code point lists separated by ',') -> the order in which their groups are loaded
+    (match (if t.isEmpty then some [] else (t.splitOn ",").mapM parseNats) with
+     | some names =>
+       let d : SectionDict := names.map (fun n => (n, [[(⟨0, .str n⟩ : CTag)]]))
+       ",".intercalate ((loadSequence d).map (fun g => dots (entityType g)))
      | none => "bad-op")
   | _ => "bad-op"
 
